@@ -1,5 +1,6 @@
 import HappyProofs.C14.Flush
-import HappyProofs.C14.Compact
+import HappyProofs.C14.LsmProps
+import HappyProofs.C14.LsmObs
 import HappyModel.C14.Driver
 import HappyProofs.C14.BTreeMain
 import HappyProofs.C14.TxnMain
@@ -57,39 +58,6 @@ theorem abs_compact_partial (S O : List Tab) (k : Key) (hu : ∀ t ∈ S, Uniq t
   cases lookTabs k S.reverse <;> rfl
 
 /-! ### full statements that are not proved (gaps are named in `hv/props/c14.py`) -/
-
-def Sorted (d : Data) : Prop := (d.map (·.1)).Pairwise (· < ·)
-
-def LevelDisjoint (l : List Tab) : Prop :=
-  l.Pairwise fun a b => ∀ k, a.data.lookup k = none ∨ b.data.lookup k = none
-
-/-- what the exclusive compaction of the repaired tree guarantees between plan and install -/
-structure CompactPre (cfg : Cfg) (s : St) (j : Job) : Prop where
-  planned : ∃ lv0 extra, planCompaction cfg lv0 j.src = some j ∧ lv0.length = s.levels.length ∧
-    lv0.getD j.tgt [] = s.levels.getD j.tgt [] ∧ s.levels.getD j.src [] = lv0.getD j.src [] ++ extra ∧
-    (j.src ≠ 0 → extra = [])
-  sorted : ∀ l ∈ s.levels, ∀ t ∈ l, Sorted t.data
-  disjoint : ∀ i, 1 ≤ i → LevelDisjoint (s.levels.getD i [])
-  ids : (s.levels.flatten.map (·.id)).Nodup
-  levels : s.levels.length = cfg.maxLevels ∧ 2 ≤ cfg.maxLevels
-
-/-- installing a compaction does not change the abstract map -/
-def abs_compact_full : Prop :=
-  ∀ (cfg : Cfg) (s : St) (j : Job) (k : Key), CompactPre cfg s j → (compactInstall s j).1.abs k = s.abs k
-
-/-- observations of a model run, in the vocabulary of the Spec -/
-def obsOf (ops : List (Nat × OKind)) (y : Sys) : List ORec :=
-  y.frames.filterMap fun f =>
-    match f.b, ops.lookup f.id with
-    | some b, some kind =>
-      some { id := f.id, kind := kind, b := b, e := f.e,
-             got := match f.pc with | .done (.val c) => c | _ => none,
-             rows := match f.pc with | .done (.rows d) => d | _ => [] }
-    | _, _ => none
-
-def DistinctPuts (ops : List (Nat × OKind)) : Prop :=
-  (ops.map (·.1)).Nodup ∧
-  (ops.filterMap fun o => match o.2 with | .put _ v => some v | _ => none).Nodup
 
 /-- every frozen memtable is installed before any memtable frozen after it -/
 def FlushesInstallInStartOrder (cfg : Cfg) (y : Sys) (sched : List Nat) : Prop :=
